@@ -356,43 +356,46 @@ pub fn block_n100() {
 }
 
 /// A list is the elements joined by commas; an empty list is an error, not an empty element.
+/// Lengths 0..=3, one case after the other (element values symbolic).
 #[kani::proof]
-#[kani::unwind(10)]
+#[kani::unwind(8)]
 pub fn list_vec_and_arrayvec() {
-    let n: usize = kani::any();
-    kani::assume(n <= 3);
     let vals: [u8; 3] = kani::any();
-    let mut v = alloc::vec::Vec::<Byte>::new();
-    let mut a = arrayvec::ArrayVec::<Byte, 3>::new();
-    let mut i = 0;
-    while i < 3 {
-        if i < n {
-            v.push(Byte(vals[i]));
-            a.push(Byte(vals[i]));
-        }
-        i += 1;
-    }
-    let mut out = Out::new();
-    let r = v.format_response_data(&mut out);
-    let mut out2 = Out::new();
-    let r2 = a.format_response_data(&mut out2);
-    if n == 0 {
-        assert!(r.is_err() && out.len() == 0, "C09/Vec::format_response_data/empty-list-is-an-error");
-        assert!(r2.is_err() && out2.len() == 0, "C09/ArrayVec::format_response_data/empty-list-is-an-error");
-    } else {
-        assert!(r.is_ok() && out.len() == 2 * n - 1, "C09/Vec::format_response_data/n-elements-n-1-commas");
-        assert!(r2.is_ok() && bytes_eq(&out, &out2), "C09/ArrayVec::format_response_data/same-as-Vec");
-        let mut j = 0;
-        while j < 3 {
-            if j < n {
-                assert!(out[2 * j] == vals[j], "C09/Vec::format_response_data/elements-in-order");
-                if j > 0 {
-                    assert!(out[2 * j - 1] == b',', "C09/Vec::format_response_data/comma-joined");
+    macro_rules! case {
+        ($n:expr) => {{
+            let mut v = alloc::vec::Vec::<Byte>::new();
+            let mut a = arrayvec::ArrayVec::<Byte, 3>::new();
+            let mut i = 0;
+            while i < $n {
+                v.push(Byte(vals[i]));
+                a.push(Byte(vals[i]));
+                i += 1;
+            }
+            let mut out = ArrFmt::new(16);
+            let r = v.format_response_data(&mut out);
+            let mut out2 = ArrFmt::new(16);
+            let r2 = a.format_response_data(&mut out2);
+            if $n == 0 {
+                assert!(r.is_err() && out.len == 0, "C09/Vec::format_response_data/empty-list-is-an-error");
+                assert!(r2.is_err() && out2.len == 0, "C09/ArrayVec::format_response_data/empty-list-is-an-error");
+            } else {
+                assert!(r.is_ok() && out.len == 2 * $n - 1, "C09/Vec::format_response_data/n-elements-n-1-commas");
+                assert!(r2.is_ok() && bytes_eq(out.as_slice(), out2.as_slice()), "C09/ArrayVec::format_response_data/same-as-Vec");
+                let mut j = 0;
+                while j < $n {
+                    assert!(out.bytes[2 * j] == vals[j], "C09/Vec::format_response_data/elements-in-order");
+                    if j > 0 {
+                        assert!(out.bytes[2 * j - 1] == b',', "C09/Vec::format_response_data/comma-joined");
+                    }
+                    j += 1;
                 }
             }
-            j += 1;
-        }
+        }};
     }
+    case!(0);
+    case!(1);
+    case!(2);
+    case!(3);
 }
 
 /// Error-queue items: `code,"message"` / `code,"message;extended"` for ANY error number and
